@@ -567,3 +567,20 @@ def compound_forms_replay(meth):
         return inner(inputs) if inputs.get("query") else None
 
     return replay
+
+
+# ---- C18: the command-line handlers (the counter-model is an option combination in an abstraction of
+# ---- the library; the witness is searched by the end-to-end matrix of monitors/c18.py on the real CLI)
+
+def cli_replay(sub):
+    def replay(inputs):
+        from monitors import c18
+
+        res = c18.run("quick", 0)
+        for f in res.get("failures", []):
+            what = f.get("what", "")
+            if what.startswith(f"json {sub}") or f" {sub} " in what[:80] or f"python -m jsonpath {sub}" in what:
+                return what[:900]
+        return None
+
+    return replay
